@@ -185,7 +185,7 @@ func GetJdRangeFromEpochRange(startEpoch int64, endEpoch int64, loc *time.Locati
 func GetHmsBySeconds(second uint) lib.HMS {
 	return lib.HMS{
 		Hour:   uint8(second / 3600),
-		Minute: uint8(second / 60),
+		Minute: uint8(second / 60 % 60),
 		Second: uint8(second % 60), // safe %
 	}
 }
